@@ -400,6 +400,8 @@ def load_check(modname):
     if VERIF not in sys.path:
         sys.path.insert(0, VERIF)
     import importlib
+    import logging
+    logging.disable(logging.CRITICAL)
     import ZODB
     want = os.path.realpath(os.path.join(REPO_SRC, 'ZODB'))
     have = os.path.realpath(os.path.dirname(ZODB.__file__))
